@@ -103,6 +103,11 @@ pub fn goml(sb: &Sandbox, spec: &ProcSpec, args: Vec<String>) -> ProcResult<CliO
     run_process(&sb.root, spec, None, move || cli::entry(&args))
 }
 
+/// The same invocation executed by a long-lived simulated server process (see `world::Server`).
+pub fn goml_on(server: Option<&crate::world::Server>, sb: &Sandbox, spec: &ProcSpec, args: Vec<String>) -> ProcResult<CliOut> {
+    crate::world::run_process_on(server, &sb.root, spec, None, move || cli::entry(&args))
+}
+
 /// `goml run main.gom` invoked from inside the project directory (the entry file named without
 /// any directory part). File-system calls on relative paths are outside the sandbox prefix, so
 /// this run sees the real directory order and no injected faults; entropy is still simulated.
